@@ -88,6 +88,12 @@ CLAIMED = {
   "note": "PARTIAL: the refinement 'the table maps full dotted paths to declarations' (lookup_refines_scope) is established by the search against the scope walker, not yet by a theorem. Known finding F16: the context follows every symbol, constants included (programs where the two readings differ are compared with the second reading exactly). Trusted: Lean kernel + three standard axioms; whole-assembler model tied by differential execution.",
   "technique": "Lean 4 proof (case analysis on the table operations) + scope-walker oracle on the implementation + model correspondence",
  },
+ "C16": {
+  "text": "Lean 4 theorems about the model of the first loop of asm::assemble (Casm/Props/C16.lean): resolveIfs_splices (one round of resolve_ifs replaces, in place and in order, every conditional whose condition evaluates to true by exactly its first arm and every one whose condition is false by exactly its else-part - which holds the #elif/#else chain - or by nothing; everything else stays), true_arm_only / false_arm_only / dead_arm_dropped, leftover_conditional_is_error (a conditional still present when the loop stops is an error whatever its condition evaluates to), define_overrides_constant and resolved_constant_is_kept (a define replaces the constant's value, marks it resolved, and the iterative resolver never re-evaluates a resolved constant), unused_define_is_error. Search and tie: generated condition trees (depth <= 4, #elif chains, empty arms, arms that all define the same name, constants before/after/inside arms, ill-typed, address-dependent and undeclared conditions) x define assignments (booleans, integers, negative, overriding address-valued constants, names declared only in dead arms or nowhere); the expected world is computed by a direct interpreter written from the statement (lazy && and ||); implementation and model are run on every case and the implementation also on the hand-flattened program; -d spellings go through driver::drive.",
+  "design_ref": "DESIGN.md section 6, C16",
+  "note": "PARTIAL: the fixed point of the whole loop (declarations, constants, splicing repeated until nothing changes) equals the interpreter's world by search and correspondence, not by a theorem; the per-round splice and the error clauses are theorems. Known finding F15 (a global label spliced in by a conditional does not re-scope local symbols declared after it). Trusted: Lean kernel + three standard axioms; whole-assembler model tied by differential execution.",
+  "technique": "Lean 4 proof (fold induction, case analysis) + world interpreter oracle on the implementation + hand-flattened twins + model correspondence",
+ },
 }
 
 NOT_YET = {}
